@@ -114,6 +114,28 @@ def pack_rule(ctx, crate):
             ok = all(d == d0 and h == h0 for d, h, _ in sib) and parent[1] == h0 and parent[0] == ('op', 'sub', 'u8', d0, C('u8', 1))
         detail = "siblings probed: %s; parent written: %s" % ([(show(d), show(h), k) for d, h, k in sib], (show(parent[0]), show(parent[1])) if parent else None)
     ctx.report(clause, "pack:merges-only-four-full-siblings", ok, detail, at=b.span, kind="N")
+    # the look-ahead bound: the three siblings are read at i, i+1, i+2, so the guard must be exactly
+    # "i + 2 < n" — weaker reads out of bounds, stronger never merges a quadruple that ends the list
+    sib_sites = [ev for ev in brv if ev.args[1][0] == 'op' and ev.args[1][1] == 'bitor']
+    bound_ok = False; seen_bounds = []
+    if sib_sites:
+        first = min(sib_sites, key=lambda ev: b.rpo().get(ev.site[-1][1], 1 << 30))
+        from rules.common import cmp_facts as _cf
+        for op, a, c, pos in _cf(first.facts):
+            if not pos: continue
+            # normalise to  (i + k) < n
+            if op in ("gt", "ge"): a, c, op = c, a, {"gt": "lt", "ge": "le"}[op]
+            if op not in ("lt", "le"): continue
+            k = None
+            if a[0] == 'op' and a[1] == 'add' and a[4][0] == 'c': k = a[4][2]; base = a[3]
+            elif a[0] in ('phi', 'sym', 'p'): k = 0; base = a
+            if k is None: continue
+            if op == "le": k -= 1
+            seen_bounds.append((show(base)[:30], k, show(c)[:30]))
+            if k == 2: bound_ok = True
+    ctx.report(clause, "pack:sibling-lookahead-bound=i+2<n", bound_ok and not any(k > 2 for _, k, _ in seen_bounds),
+               "the three following siblings are compared under `i + 2 < n`" if bound_ok and not any(k > 2 for _, k, _ in seen_bounds) else
+               "look-ahead guard is not `i + 2 < n` (bounds seen: %s): a quadruple of full siblings that ends the list is never merged, or entries are read out of bounds" % seen_bounds, at=b.span, kind="N")
     # the skip loop keeps depth-0 cells, partial cells and non-first siblings unmerged
     conds = [show(d) for d, loc in e.branches if loc[0] == fn]
     has0 = any("== 0u8" in c for c in conds)
